@@ -279,6 +279,42 @@ func scenarioC02(r *Run) {
 		return
 	}
 	cs.CheckPairing("isolation")
+	// Phase 3 (sampled): the connections stay open and silent for a while - longer than any handshake
+	// or selection time-out of the code under test - and then each of them moves a little more data
+	// both ways. A connection that is open is usable for as long as its two ends keep it open.
+	if linger := c.OneOf("linger-s", 0, 0, 35, 90); linger > 0 && !CarrierIsDNS(carrier) {
+		r.RunFor(time.Duration(linger) * time.Second)
+		r.Count("lingering_runs")
+		var live []*LConn
+		for _, lc := range conns {
+			if lc.Mode == "refused" || lc.Mode == "closing-app" || lc.Mode == "closing-target" || lc.Tp == nil || lc.App == nil {
+				continue
+			}
+			na, nt := 1+c.Pick(2000, "linger-app-bytes"), 1+c.Pick(2000, "linger-tgt-bytes")
+			lc.App.Script = append(lc.App.Script, Op{Kind: "write", N: na})
+			lc.Tp.Script = append(lc.Tp.Script, Op{Kind: "write", N: nt})
+			lc.WantA += int64(na)
+			lc.WantT += int64(nt)
+			live = append(live, lc)
+		}
+		again := func() bool {
+			for _, lc := range live {
+				if !cs.Complete(lc, false) {
+					return false
+				}
+			}
+			return true
+		}
+		out = r.Drive(&NetPolicy{Whole: true}, again, extra, 60*time.Second, 30*time.Minute)
+		if out == Aborted {
+			return
+		}
+		if out != GoalMet {
+			r.FailSig("progress", fmt.Sprintf("phase=linger carrier=%s", carrierClass(carrier)), "%s: after %d s of silence not every open connection could move data again: %v", out, linger, cs.Describe())
+			return
+		}
+		cs.CheckPairing("isolation")
+	}
 	for _, lc := range conns {
 		if lc.Mode == "refused" {
 			r.Count("refused_opens_among_live_connections")
